@@ -414,3 +414,44 @@ Proof.
   - destruct (images 100 _) as [imgs|] eqn:E; [|by vm_compute in E].
     exists imgs. split; [done|]. vm_compute in E. injection E as <-. by vm_compute.
 Qed.
+
+(** ** The committed side only changes at a commit: whenever the process stops, what the
+    database holds after discarding its uncommitted window is the last committed image *)
+Lemma do_sev_com d e d' :
+  do_sev d e = Some d' →
+  match e with
+  | SWrite _ | SFlushCheck false => com d' = com d
+  | SFlushCheck true | SFlush => com d' = cur d
+  end.
+Proof.
+  destruct e as [w|[|]|]; cbn.
+  - destruct (do_write (cur d) w); [|done]. by intros [= <-].
+  - by intros [= <-].
+  - by intros [= <-].
+  - by intros [= <-].
+Qed.
+
+Lemma last_cons_default {A} (a : A) l x : List.last (a :: l) x = List.last l a.
+Proof. destruct l as [|b l]; [done|]. cbn [List.last]. revert b. induction l as [|c l IH]; intros b; [done|]. cbn [List.last]. apply IH. Qed.
+
+Theorem committed_is_last_image l : ∀ d acc d' imgs,
+  run_sevs d l acc = Some (d', imgs) →
+  ∃ new, imgs = acc ++ new ∧ com d' = List.last new (com d).
+Proof.
+  induction l as [|e r IH]; intros d acc d' imgs Hrun; cbn in Hrun.
+  - injection Hrun as <- <-. exists []. by rewrite app_nil_r.
+  - destruct (do_sev d e) as [d1|] eqn:E; [|done].
+    pose proof (do_sev_com d e d1 E) as Hcom.
+    destruct (IH d1 _ d' imgs Hrun) as (new & -> & Hl).
+    destruct e as [w|[|]|]; rewrite Hcom in Hl.
+    + by exists new.
+    + exists (cur d :: new). by rewrite <- app_assoc, last_cons_default.
+    + by exists new.
+    + exists (cur d :: new). by rewrite <- app_assoc, last_cons_default.
+Qed.
+
+Corollary committed_side_is_last_commit R l d' imgs :
+  run_sevs db_init (compile_all R l) [] = Some (d', imgs) → com d' = List.last imgs empty_img.
+Proof.
+  intros H. destruct (committed_is_last_image _ _ _ _ _ H) as (new & -> & ->). done.
+Qed.
